@@ -46,4 +46,56 @@ def shippedDefault? (list : String) (idx : Nat) : Option ShippedDefault :=
 
 def shippedListLength (list : String) : Nat := (shippedDefaults.filter fun d => d.list == list).length
 
+/-! ## Documented defaults of the optional fields of `bootstrapping.ParametersLiteral`
+
+  (doc comment of the type and the `Default…` constants of parameters_literal.go at /repo HEAD 7bb6955). They do not depend
+  on `Mod1Type`, except that the sine takes no double angle (the field "only applies for cos"). Tied by `literal_default`
+  (the `Get…()` of an all-nil literal, per Mod1Type), `literal_default_const` (constants read from the source) and
+  `literal_default_doc` ("by default set to x" of the doc comment). `CoeffsToSlots` / `SlotsToCoeffs` are for LogSlots = 15. -/
+
+def literalDefault (mod1Type field : String) : Option String :=
+  match field with
+  | "LogN" => some "16"
+  | "LogSlots" => some "15"
+  | "EvalModLogScale" => some "60"
+  | "EphemeralSecretWeight" => some "32"
+  | "LogMessageRatio" => some "8"
+  | "K" => some "16"
+  | "Mod1Degree" => some "30"
+  | "DoubleAngle" => some (if mod1Type == "SinContinuous" then "0" else "3")
+  | "Mod1InvDegree" => some "0"
+  | "CoeffsToSlots" => some "56/56/56/56"
+  | "SlotsToCoeffs" => some "39/39/39"
+  | "Xs" => some "Ternary{H=192}"
+  | "IterationsParameters" => some "nil"
+  | _ => none
+
+def defaultConst : String → Option String
+  | "DefaultLogN" => some "16"
+  | "DefaultCoeffsToSlotsFactorizationDepth" => some "4"
+  | "DefaultSlotsToCoeffsFactorizationDepth" => some "3"
+  | "DefaultCoeffsToSlotsLogScale" => some "56"
+  | "DefaultSlotsToCoeffsLogScale" => some "39"
+  | "DefaultEvalModLogScale" => some "60"
+  | "DefaultEphemeralSecretWeight" => some "32"
+  | "DefaultIterations" => some "1"
+  | "DefaultMod1Type" => some "CosDiscrete"
+  | "DefaultLogMessageRatio" => some "8"
+  | "DefaultK" => some "16"
+  | "DefaultMod1Degree" => some "30"
+  | "DefaultDoubleAngle" => some "3"
+  | "DefaultMod1InvDegree" => some "0"
+  | "DefaultXs" => some "Ternary{H=192}"
+  | _ => none
+
+def defaultDoc : String → Option String
+  | "EphemeralSecretWeight" => some "32"
+  | "LogMessageRatio" => some "8"
+  | "Mod1Type" => some "mod1.CosDiscrete"
+  | "K" => some "16"
+  | "Mod1Degree" => some "30"
+  | "DoubleAngle" => some "3"
+  | "Mod1InvDegree" => some "0"
+  | _ => none
+
 end Lattigo.Model.Bootstrap
